@@ -89,3 +89,14 @@ Definition get_twice (own : list N) (c : vcache) (node : N) (e : pv_entry) : res
   let (r1, c1) := get_or_store own c node e in
   let (r2, _) := get_or_store own c1 node e in
   (r1, r2).
+
+(* a history of getOrStoreHighestVersion calls on ONE protocol instance: (peer id, what its record carries) per call.
+   own (p.currentVersions) is an argument that no call changes: findBiggestSameNumber only reads its slices. *)
+Fixpoint gos_history (own : list N) (c : vcache) (steps : list (N * pv_entry)) : list (res N) * vcache :=
+  match steps with
+  | [] => ([], c)
+  | (node, e) :: r =>
+      let (x, c1) := get_or_store own c node e in
+      let (xs, c2) := gos_history own c1 r in
+      (x :: xs, c2)
+  end.
